@@ -172,7 +172,7 @@ def make_watch_cases(tier, seed):
                 mops.append({"kind": "rename", "p": d2 + [lossy(nb2)], "to": d3 + [lossy(nb3)], "check": True})
                 if (d3, nb3) not in created:
                     created.append((d3, nb3))
-        m = {"resources": resources, "ops": mops, "also": []}
+        m = {"resources": resources, "ops": mops, "also": ["C15"]}      # "watching applies the same rule to the path of each event"
         cases.append({"id": "w%d" % k, "kindcase": "watch", "m": m,
                       "job": {"id": "w%d" % k, "tree": tree, "yaml": y, "requested": ["t"], "sentinel": sent, "ops": ops, "settle_ms": 30}})
     return cases
